@@ -10,65 +10,73 @@ from .. import splitter_facts as sf
 
 def run(P: Program, rep: Report):
     rep.not_decided += ["equality of the parsed suffix with a stand-alone parse for concrete texts (follows from the product under the model)"]
-    sf.sm.configure(P)
-    rep.rule("C04.R1", "resynchronisation: in every scanner state (open quote, open braces, any position in an entry) a "
-                       "block start aborts the current block, is handed back, and begins the next block; a failed block ends "
-                       "where that mark starts; after a failure the code is again bisimilar to the reference from its "
-                       "initial state. " + sf.PRODUCT_RULE_TEXT)
-    sf.report_product(rep, P, "C04.R1", ["resync"], "abort / hand-back / restart", include_all_after_abort=True)
+    def product_rules():
+        sf.sm.configure(P)
+        rep.rule("C04.R1", "resynchronisation: in every scanner state (open quote, open braces, any position in an entry) a "
+                           "block start aborts the current block, is handed back, and begins the next block; a failed block ends "
+                           "where that mark starts; after a failure the code is again bisimilar to the reference from its "
+                           "initial state. " + sf.PRODUCT_RULE_TEXT)
+        sf.report_product(rep, P, "C04.R1", ["resync"], "abort / hand-back / restart", include_all_after_abort=True)
 
-    rep.rule("C04.R2", "put-back discipline: a pending mark is returned by the next fetch before the iterator is advanced, the "
-                       "slot is cleared, and the position is set to the mark's start (abstract run of _next_mark)")
-    issues, scen = sf.check_next_mark(P)
-    fi = P.func("splitter", f"Splitter.{sf.sm.M_NEXT_MARK}")
-    pend = [i for i in issues if "pending" in i["message"] or "analyser" in i["message"] or "current char index" in i["message"]]
-    for s in scen:
-        if not any(i["scenario"] in s for i in pend):
-            rep.ok("C04.R2", "next_mark:" + s, fi.loc)
-    for i in pend:
-        rep.fail("C04.R2", "next_mark:" + i["message"][:70], fi.loc, f"{i['message']} [{i['scenario']}]")
+        rep.rule("C04.R2", "put-back discipline: a pending mark is returned by the next fetch before the iterator is advanced, the "
+                           "slot is cleared, and the position is set to the mark's start (abstract run of _next_mark)")
+        issues, scen = sf.check_next_mark(P)
+        fi = P.func("splitter", f"Splitter.{sf.sm.M_NEXT_MARK}")
+        pend = [i for i in issues if "pending" in i["message"] or "analyser" in i["message"] or "current char index" in i["message"]]
+        for s in scen:
+            if not any(i["scenario"] in s for i in pend):
+                rep.ok("C04.R2", "next_mark:" + s, fi.loc)
+        for i in pend:
+            rep.fail("C04.R2", "next_mark:" + i["message"][:70], fi.loc, f"{i['message']} [{i['scenario']}]")
 
-    rep.rule("C04.R4", "no backtracking: the mark iterator is advanced only inside _next_mark, and the splitter never removes or "
-                       "replaces a block it has added")
-    cls = P.cls("splitter", "Splitter")
-    readers = []
-    for f in cls.methods.values():
-        for n in own_nodes(f.node):
-            if isinstance(n, ast.Attribute) and n.attr == sf.sm.ATTR_ITER and isinstance(n.ctx, ast.Load):
-                readers.append((f, n))
-    rep.require_count("C04.R4", "reads of the mark iterator", len(readers), 1)
-    for f, n in readers:
-        rep.check(f.name == sf.sm.M_NEXT_MARK, "C04.R4", f"markiter-read:{f.name}", f"{f.module.relpath}:{n.lineno}",
-                  f"the mark iterator is consumed in {f.name}, outside _next_mark (marks can be skipped or re-read)")
-    lib = P.cls("library", "Library")
-    for name in ("remove", "replace"):
-        if name not in lib.methods:
-            raise AnalysisError(f"C04.R4: positive control failed: Library.{name} not found")
-    mod = P.module("splitter")
-    calls = 0
-    for n in ast.walk(mod.tree):
-        if isinstance(n, ast.Call) and isinstance(n.func, ast.Attribute):
-            calls += 1
-            if n.func.attr in ("remove", "replace") and "library" in ast.unparse(n.func.value).lower():
-                rep.fail("C04.R4", f"library-{n.func.attr}:{norm_stmt(n)}", f"{mod.relpath}:{n.lineno}",
-                         f"splitter calls library.{n.func.attr}: an already added block is touched")
-    rep.count("splitter_method_calls_scanned", calls)
-    rep.ok("C04.R4", "library:no-remove-replace", mod.relpath, f"{calls} method calls scanned, none removes/replaces (control: Library defines both)")
+        rep.rule("C04.R4", "no backtracking: the mark iterator is advanced only inside _next_mark, and the splitter never removes or "
+                           "replaces a block it has added")
+        cls = P.cls("splitter", "Splitter")
+        readers = []
+        for f in cls.methods.values():
+            for n in own_nodes(f.node):
+                if isinstance(n, ast.Attribute) and n.attr == sf.sm.ATTR_ITER and isinstance(n.ctx, ast.Load):
+                    readers.append((f, n))
+        rep.require_count("C04.R4", "reads of the mark iterator", len(readers), 1)
+        for f, n in readers:
+            rep.check(f.name == sf.sm.M_NEXT_MARK, "C04.R4", f"markiter-read:{f.name}", f"{f.module.relpath}:{n.lineno}",
+                      f"the mark iterator is consumed in {f.name}, outside _next_mark (marks can be skipped or re-read)")
+        lib = P.cls("library", "Library")
+        for name in ("remove", "replace"):
+            if name not in lib.methods:
+                raise AnalysisError(f"C04.R4: positive control failed: Library.{name} not found")
+        mod = P.module("splitter")
+        calls = 0
+        for n in ast.walk(mod.tree):
+            if isinstance(n, ast.Call) and isinstance(n.func, ast.Attribute):
+                calls += 1
+                if n.func.attr in ("remove", "replace") and "library" in ast.unparse(n.func.value).lower():
+                    rep.fail("C04.R4", f"library-{n.func.attr}:{norm_stmt(n)}", f"{mod.relpath}:{n.lineno}",
+                             f"splitter calls library.{n.func.attr}: an already added block is touched")
+        rep.count("splitter_method_calls_scanned", calls)
+        rep.ok("C04.R4", "library:no-remove-replace", mod.relpath, f"{calls} method calls scanned, none removes/replaces (control: Library defines both)")
+
+
+    sf.guard(rep, "C04.R1", product_rules)
 
     rep.rule("C04.R5", "blocks are independent of look-alike keys earlier in the text: entries / strings whose keys differ only in letter "
                        "case (or by case folding, or a trailing blank) are distinct live blocks, none is turned into a duplicate block")
     from . import common as _cm
     _cm.keys_are_exact(P, rep, "C04.R5")
 
-    rep.rule("C04.R6", "text in front cannot shift what follows: no alternative of the mark regex other than the newline itself consumes a newline "
-                       "(a line break swallowed by a block start in the preceding text would make every later start line too small)")
-    from ..rx import find_mark_regex as _fmr
-    rx_ = _fmr(P)
-    for i_, al in enumerate(rx_.alts):
-        is_newline_alt = al.fixed_single_char() and al.items[0].cs.is_finite() and al.items[0].cs.chars == {"\n"}
-        if not is_newline_alt:
-            rep.check(not al.can_consume("\n"), "C04.R6", f"regex:alt{i_}:no-newline-inside", rx_.loc,
-                      f"the alternative {al!r} of the mark regex can consume a newline: blocks after such text report start lines that differ from the ones they have on their own")
+    def regex_rule():
+        rep.rule("C04.R6", "text in front cannot shift what follows: no alternative of the mark regex other than the newline itself consumes a newline "
+                           "(a line break swallowed by a block start in the preceding text would make every later start line too small)")
+        from ..rx import find_mark_regex as _fmr
+        rx_ = _fmr(P)
+        for i_, al in enumerate(rx_.alts):
+            is_newline_alt = al.fixed_single_char() and al.items[0].cs.is_finite() and al.items[0].cs.chars == {"\n"}
+            if not is_newline_alt:
+                rep.check(not al.can_consume("\n"), "C04.R6", f"regex:alt{i_}:no-newline-inside", rx_.loc,
+                          f"the alternative {al!r} of the mark regex can consume a newline: blocks after such text report start lines that differ from the ones they have on their own")
+
+
+    sf.guard(rep, "C04.R6", regex_rule, "mark regex")
 
     rep.rule("C04.R7", "context table (concrete texts run by the interpreter, see C01.R11): for D1 + X + newline + D2 with X ranging over malformed texts (truncated blocks, unbalanced braces and quotes, repeated field keys under a key that D2 uses, short token sequences) the blocks parsed for D1 and for D2 - class, key, raw text, fields, values, lines shifted - are those parsed for D1 and D2 on their own")
     from .. import doctable as _dt
